@@ -89,10 +89,11 @@ class _InlineFunction(XPathFunction):
         if self.label == 'function test':
             if len(self.sequence_types) == 1 and self.sequence_types[0] == '*':
                 return 'function(*)' + self.occurrence
-            else:
-                return 'function(%s) as %s' % (
-                    ', '.join(self.sequence_types[:-1]), self.sequence_types[-1]
-                )
+            source = 'function(%s) as %s' % (
+                ', '.join(self.sequence_types[:-1]), self.sequence_types[-1]
+            )
+            # an occurrence indicator of the function test itself needs the parentheses
+            return f'({source}){self.occurrence}' if self.occurrence else source
 
         arguments = []
         return_type = ''
@@ -227,13 +228,16 @@ class _InlineFunction(XPathFunction):
 
     def nud(self) -> Union[XPathFunction, XPathToken]:  # type: ignore[override]
         def append_sequence_type(tk: XPathToken) -> None:
-            if tk.symbol == '(' and len(tk) == 1:
-                tk = tk[0]
+            while tk.symbol == '(' and len(tk) == 1:
+                tk = tk[0]  # a parenthesized item type
 
             sequence_type = tk.source
             next_symbol = self.parser.next_token.symbol
             if sequence_type != 'empty-sequence()' and next_symbol in ('*', '+', '?'):
                 self.parser.advance()
+                if sequence_type.startswith('function(') and ') as ' in sequence_type:
+                    # the occurrence indicator of a typed function test, not of its return type
+                    sequence_type = f'({sequence_type})'
                 sequence_type += next_symbol
                 tk.occurrence = next_symbol
 
@@ -305,7 +309,7 @@ class _InlineFunction(XPathFunction):
         else:
             self.parser.advance('as')
             if self.parser.next_token.label not in ('kind test', 'sequence type', 'function test'):
-                self.parser.expected_next('(name)', ':')
+                self.parser.expected_next('(name)', ':', '(')
 
             token = self.parser.expression(rbp=90)
             append_sequence_type(token)
